@@ -183,7 +183,7 @@ var baseTable = FunctionTable{
 		0,
 		false,
 	},
-	"convertToDateTime": Function{
+	"convertsToDateTime": Function{
 		impl.ConvertsToDateTime,
 		0,
 		0,
@@ -202,7 +202,7 @@ var baseTable = FunctionTable{
 		false,
 	},
 	"toQuantity": Function{
-		impl.ToInteger,
+		impl.ToQuantity,
 		0,
 		1,
 		false,
